@@ -155,6 +155,7 @@ def run_case(case):
         if rejected == 0 and e.preamble_solution_count() == 1 and tr.rounds == 1 and tr.leftover == 0:
             if tr.metrics.get("solution_count") != total:
                 viols.append(("C06/solution-count", "metrics['solution_count']=%r but %d valid sequences exist (no candidate was rejected)" % (tr.metrics.get("solution_count"), total)))
+    viols = [(common.with_family(sg, m), dt) for sg, dt in viols]
     viol = common.pick_violation(PROP, viols)
     if viol:
         base.update(outcome="violation", signature=viol[0], detail=viol[1] + " ; design=" + dast.describe(ast))
